@@ -6,12 +6,15 @@
 (* and the rest of that run is skipped up to the next Reset.                               *)
 (*                                                                                         *)
 (* A run:  Reset  Lex  Parse  Reparse  ( Insert  Lex  Parse )*                              *)
-(*   Reset{n, dg}       a new input text of n bytes with digest dg                          *)
+(*   Reset{n, dg, rep}  a new input text of n bytes with digest dg; rep = 1 if the same     *)
+(*                      text occurs in more than one script of the file                     *)
 (*   Lex{toks}          tokens must tile [0, n)                                             *)
 (*   Parse{walk, errs, tlen, tdg, dg}                                                       *)
 (*                      the tree is balanced with one root, its text is the input          *)
 (*                      (length and digest), error ranges lie inside [0, n]                 *)
 (*   Reparse{dg}        parsing is a function of the text: same digest as the first parse  *)
+(*                      (and `seen` remembers the parse digest of every repeated text: the *)
+(*                      same text parsed again in a later run must give the same digest)   *)
 (*   Insert{i, len, n, dg}   InsertTrivia(i, kind) on an error-free text; the following    *)
 (*                      Lex / Parse are judged like any other text and, if the insertion   *)
 (*                      left the non-trivia tokens as they were, the shape must be the     *)
@@ -27,24 +30,26 @@ VARIABLES l, run, bad, skip,
           derived,   \* FALSE: the base text; TRUE: a text produced by InsertTrivia
           base,      \* what is remembered of the base text: [n, ok, dg, shape, nt]
           pre,       \* derived text: the insertion left the non-trivia tokens untouched
+          rep,       \* the base text of this run occurs in other runs as well
+          seen,      \* text digest |-> digest of its parse, for the repeated texts of the file
           cnt        \* counters for the evidence file
-tvars == <<l, run, bad, skip, id, n, dg, cur, st, derived, base, pre, cnt, pvars>>
+tvars == <<l, run, bad, skip, id, n, dg, cur, st, derived, base, pre, rep, seen, cnt, pvars>>
 E == Rec[l]
 More == l <= Len(Rec)
 NoBase == [n |-> 0, ok |-> FALSE, dg |-> "", shape |-> <<>>, nt |-> <<>>]
-Cnt0 == [lex |-> 0, parse |-> 0, reparse |-> 0, insert |-> 0, shapes |-> 0, inconclusive |-> 0, tokens |-> 0]
+Cnt0 == [lex |-> 0, parse |-> 0, reparse |-> 0, insert |-> 0, shapes |-> 0, inconclusive |-> 0, tokens |-> 0, again |-> 0]
 \* the design-level variables are not used by the trace specification
 Frozen == UNCHANGED pvars
 
 Load(r) == /\ id' = r.id /\ n' = r.n /\ dg' = r.dg /\ cur' = <<>> /\ st' = "reset" /\ derived' = FALSE
-           /\ base' = NoBase /\ pre' = FALSE /\ skip' = FALSE
-Init == /\ l = 2 /\ run = 1 /\ bad = <<>> /\ cnt = Cnt0 /\ Rec[1].a = "Reset"
+           /\ base' = NoBase /\ pre' = FALSE /\ skip' = FALSE /\ rep' = (r.rep = 1)
+Init == /\ l = 2 /\ run = 1 /\ bad = <<>> /\ cnt = Cnt0 /\ seen = <<>> /\ Rec[1].a = "Reset"
         /\ id = Rec[1].id /\ n = Rec[1].n /\ dg = Rec[1].dg /\ cur = <<>> /\ st = "reset" /\ derived = FALSE
-        /\ base = NoBase /\ pre = FALSE /\ skip = FALSE
+        /\ base = NoBase /\ pre = FALSE /\ skip = FALSE /\ rep = (Rec[1].rep = 1)
         /\ toks = <<>> /\ ParserInit
-Reset == /\ E.a = "Reset" /\ Load(E) /\ l' = l + 1 /\ run' = run + 1 /\ UNCHANGED <<bad, cnt>> /\ Frozen
+Reset == /\ E.a = "Reset" /\ Load(E) /\ l' = l + 1 /\ run' = run + 1 /\ UNCHANGED <<bad, cnt, seen>> /\ Frozen
 Skip == /\ skip /\ E.a # "Reset" /\ l' = l + 1
-        /\ UNCHANGED <<run, bad, skip, id, n, dg, cur, st, derived, base, pre, cnt>> /\ Frozen
+        /\ UNCHANGED <<run, bad, skip, id, n, dg, cur, st, derived, base, pre, rep, seen, cnt>> /\ Frozen
 
 \* verdict on the current event: accepted, or rejected with the set of failing clauses
 Judge(why) == IF why = {} THEN bad' = bad /\ skip' = FALSE
@@ -59,7 +64,7 @@ Lex ==
         /\ cur' = E.toks /\ st' = "lexed"
         /\ pre' = (derived /\ why = {} /\ NonTrivia(E.toks) = base.nt)
   /\ cnt' = [cnt EXCEPT !.lex = @ + 1, !.tokens = @ + Len(E.toks)]
-  /\ UNCHANGED <<run, id, n, dg, derived, base>> /\ Frozen
+  /\ UNCHANGED <<run, id, n, dg, derived, base, rep, seen>> /\ Frozen
 
 ParseWhy ==
      WalkWhy(E.walk, n)
@@ -69,23 +74,26 @@ ParseWhy ==
 Parse ==
   /\ ~skip /\ E.a = "Parse" /\ l' = l + 1
   /\ LET judged == derived /\ pre /\ base.ok
+         known == rep /\ ~derived /\ dg \in DOMAIN seen
          why == IF st # "lexed" THEN OutOfOrder
                 ELSE ParseWhy \cup (IF judged /\ Shape(E.walk) # base.shape THEN {"trivia:shape"} ELSE {})
+                              \cup (IF known /\ seen[dg] # E.dg THEN {"impure:same-text-parsed-earlier"} ELSE {})
      IN /\ Judge(why)
+        /\ seen' = IF rep /\ ~derived /\ ~known THEN (dg :> E.dg) @@ seen ELSE seen
         /\ IF derived
            THEN /\ base' = base
                 /\ cnt' = [cnt EXCEPT !.parse = @ + 1, !.shapes = @ + (IF judged THEN 1 ELSE 0),
-                                      !.inconclusive = @ + (IF judged THEN 0 ELSE 1)]
+                                      !.inconclusive = @ + (IF judged THEN 0 ELSE 1), !.again = @ + (IF known THEN 1 ELSE 0)]
            ELSE /\ base' = [n |-> n, ok |-> (Len(E.errs) = 0), dg |-> E.dg, shape |-> Shape(E.walk), nt |-> NonTrivia(cur)]
-                /\ cnt' = [cnt EXCEPT !.parse = @ + 1]
+                /\ cnt' = [cnt EXCEPT !.parse = @ + 1, !.again = @ + (IF known THEN 1 ELSE 0)]
   /\ st' = "parsed"
-  /\ UNCHANGED <<run, id, n, dg, cur, derived, pre>> /\ Frozen
+  /\ UNCHANGED <<run, id, n, dg, cur, derived, pre, rep>> /\ Frozen
 
 Reparse ==
   /\ ~skip /\ E.a = "Reparse" /\ l' = l + 1
   /\ Judge(IF st # "parsed" \/ derived THEN OutOfOrder ELSE IF E.dg = base.dg THEN {} ELSE {"impure"})
   /\ st' = "reparsed" /\ cnt' = [cnt EXCEPT !.reparse = @ + 1]
-  /\ UNCHANGED <<run, id, n, dg, cur, derived, base, pre>> /\ Frozen
+  /\ UNCHANGED <<run, id, n, dg, cur, derived, base, pre, rep, seen>> /\ Frozen
 
 \* InsertTrivia(i, kind): enabled after the base text (or an earlier insertion) has been dealt
 \* with; the new text is len bytes longer and the boundary lies between two tokens
@@ -95,13 +103,13 @@ Insert ==
            ELSE IF E.n = base.n + E.len /\ E.i >= 1 /\ E.len >= 1 THEN {} ELSE {"trace:insert"})
   /\ n' = E.n /\ dg' = E.dg /\ cur' = <<>> /\ st' = "reset" /\ derived' = TRUE /\ pre' = FALSE
   /\ cnt' = [cnt EXCEPT !.insert = @ + 1]
-  /\ UNCHANGED <<run, id, base>> /\ Frozen
+  /\ UNCHANGED <<run, id, base, rep, seen>> /\ Frozen
 
 \* no action of the specification explains a panic, an abort or a hang: parsing is total
 Died ==
   /\ ~skip /\ E.a \in {"Panic", "Abort", "Hang"} /\ l' = l + 1
   /\ Judge({IF E.a = "Panic" THEN "panic:" \o E.phase ELSE IF E.a = "Abort" THEN "abort:after-" \o E.after ELSE "hang:after-" \o E.after})
-  /\ UNCHANGED <<run, id, n, dg, cur, st, derived, base, pre, cnt>> /\ Frozen
+  /\ UNCHANGED <<run, id, n, dg, cur, st, derived, base, pre, rep, seen, cnt>> /\ Frozen
 
 Next == More /\ (Reset \/ Skip \/ Lex \/ Parse \/ Reparse \/ Insert \/ Died)
 Spec == Init /\ [][Next]_tvars
